@@ -224,6 +224,25 @@ def main(ctx):
         cases.append(family.Case(fixed_c, 'C', c_domain({n: v}, 'C'), {'kind': 'fixed-program', 'file': 'fixed:c', 'cfgkind': 'single-sweep-all'}))
         if j % 3 == 0 or not quick:
             cases.append(family.Case(fixed_cpp, 'CPP', {n: v}, {'kind': 'fixed-program', 'file': 'fixed:cpp', 'cfgkind': 'single-sweep-all'}))
+    # the token-changing (mod_) settings, each once on a fixed Java and a fixed Objective-C program made of all snippets
+    # (thorough: every setting of the domain)
+    java_toks = [('stmt', 0, 'top')] + gen_java.tokens_of(gen_java.HEADER) + [('stmt', 0, 'top'), ('id', 'class'), ('id', 'A'), ('punct', '{')]
+    for i in range(len(gen_java.SNIPPETS)):
+        java_toks += gen_java.tokens_of(gen_java.snippet_text(i, '%d' % i))
+    java_toks += [('stmt', 0, 'close'), ('punct', '}')]
+    fixed_java = layout.render(java_toks, random.Random(9), 'JAVA', dict(p_cmt=0.05, bs_cmt=0.0))[0].encode()
+    oc_toks = []
+    for i in range(len(gen_objc.SNIPPETS)):
+        oc_toks += gen_objc.tokens_of(gen_objc.SNIPPETS[i].replace('@@', '%d' % i))
+    fixed_oc = layout.render(oc_toks, random.Random(10), 'OC', dict(p_cmt=0.05, bs_cmt=0.0))[0].encode()
+    nj = 0
+    for n, v in _SINGLES:
+        if quick and not n.startswith('mod_'):
+            continue
+        nj += 1
+        cases.append(family.Case(fixed_java, 'JAVA', {n: v}, {'kind': 'fixed-program', 'file': 'fixed:java', 'cfgkind': 'single-sweep-mod' if quick else 'single-sweep-all'}))
+        cases.append(family.Case(fixed_oc, 'OC', {n: v}, {'kind': 'fixed-program', 'file': 'fixed:objc', 'cfgkind': 'single-sweep-mod' if quick else 'single-sweep-all'}))
+    ctx.extra['fixed_java_objc_settings'] = nj
     # enumerated brace shapes (dangling-else family) x brace options
     bcfgs = [{'mod_full_brace_if': 'remove', 'mod_full_brace_for': 'remove', 'mod_full_brace_while': 'remove', 'mod_full_brace_do': 'remove'},
              {'mod_full_brace_if': 'add', 'mod_full_brace_for': 'add', 'mod_full_brace_while': 'add'},
@@ -236,6 +255,18 @@ def main(ctx):
         for bc in bcfgs:
             cases.append(family.Case(src.encode(), 'C', bc, {'kind': 'brace-shape', 'file': 'shape:' + name, 'cfgkind': 'brace-options'}))
     ctx.extra['brace_shapes'] = nshape
+    # enumerated boolean-expression shapes x the options that insert / remove parentheses
+    pcfgs = [{'mod_full_paren_if_bool': 'true'}, {'mod_full_paren_assign_bool': 'true'}, {'mod_full_paren_return_bool': 'true'},
+             {'mod_full_paren_if_bool': 'true', 'mod_full_paren_assign_bool': 'true', 'mod_full_paren_return_bool': 'true'},
+             {'mod_paren_on_return': 'add'}, {'mod_paren_on_return': 'remove'},
+             {'mod_full_paren_return_bool': 'true', 'mod_paren_on_return': 'remove'},
+             {'mod_full_paren_if_bool': 'true', 'sp_inside_paren': 'remove', 'sp_paren_paren': 'remove', 'sp_bool': 'remove', 'sp_compare': 'remove'}]
+    npar = 0
+    for name, src in gen_c.paren_shapes():
+        npar += 1
+        for pc_ in pcfgs:
+            cases.append(family.Case(src.encode(), 'C', dict(pc_), {'kind': 'paren-shape', 'file': 'shape:' + name, 'cfgkind': 'paren-options'}))
+    ctx.extra['paren_shape_programs'] = npar
     cases.sort(key=lambda c: (c.origin.get('file', ''), ))
     raw = family.explore(ctx, judge, cases, batch=8)
     raw += family.hyp_explore(ctx, judge, make_strategy, to_case, shards=16, examples=(250 if quick else 6000))
